@@ -3139,7 +3139,7 @@ class Builder(object):
 
         if actorName not in poking.Poke.Registry:
             msg = "ParseError: Can't find actor named '%s'" % (actorName)
-            raise excepting.ParseError(msg, tokens, index)
+            raise excepting.ParseError(msg)
 
         parms = {}
 
@@ -3170,7 +3170,7 @@ class Builder(object):
 
         if actorName not in poking.Poke.Registry:
             msg = "ParseError: Goal can't find actor named '%s'" % (actorName)
-            raise excepting.ParseError(msg, tokens, index)
+            raise excepting.ParseError(msg)
 
         #actor = poking.Poke.Names[actorName]
 
@@ -3249,7 +3249,7 @@ class Builder(object):
 
         if actorName not in goaling.Goal.Registry:
             msg = "ParseError: Goal can't find actor named '%s'" % (actorName)
-            raise excepting.ParseError(msg, tokens, index)
+            raise excepting.ParseError(msg)
 
         parms = {}
         parms['destination'] = dstPath #this is string
@@ -3278,7 +3278,7 @@ class Builder(object):
 
         if actorName not in goaling.Goal.Registry:
             msg = "ParseError: Goal can't find actor named '%s'" % (actorName)
-            raise excepting.ParseError(msg, tokens, index)
+            raise excepting.ParseError(msg)
 
         parms = {}
         parms['destination'] = dstPath #this is string
@@ -3864,7 +3864,7 @@ class Builder(object):
 
         if actorName not in needing.Need.Registry:
             msg = "ParseError: Need can't find actor named '%s'" % (actorName)
-            raise excepting.ParseError(msg, tokens, index)
+            raise excepting.ParseError(msg)
 
         parms = {}
         parms['state'] = statePath #this is a string
@@ -3891,7 +3891,7 @@ class Builder(object):
 
         if actorName not in needing.Need.Registry:
             msg = "ParseError: Need can't find actor named '%s'" % (actorName)
-            raise excepting.ParseError(msg, tokens, index)
+            raise excepting.ParseError(msg)
 
         parms = {}
         parms['state'] = statePath #this is a string
@@ -3926,7 +3926,7 @@ class Builder(object):
 
         if actorName not in needing.Need.Registry:
             msg = "ParseError: Need can't find actor named '%s'" % (actorName)
-            raise excepting.ParseError(msg, tokens, index)
+            raise excepting.ParseError(msg)
 
         parms = {}
         parms['state'] = statePath #this is string
